@@ -55,7 +55,7 @@ DATE_NEAR = ["20200101", "2020-01", "2020", "2020/01/01", "2020-01-01T00:00:00",
 HMS = ["00:00:00", "23:59:59", "12:30:45", "09:08:07", "24:00:00", "24:00:01", "24:01:00", "12:60:00", "12:00:60", "23:59:60", "25:00:00", "1:00:00", "12:00", "12", "12:0:0", "120000", "12:00:00:00", "T12:00:00", "-12:00:00", "12.00.00"]
 FRAC = ["", ".0", ".5", ".50", ".123456", ".000001", ".999999", ".", ".1234567", ".0000001", ".5.5", ",5"]
 SEPS = ["T", "t", " ", "", "TT", "_"]
-DUR = ["P1Y", "P1M", "P1D", "PT1H", "PT1M", "PT1S", "PT1.5S", "PT0.000001S", "PT1.50S", "P1Y2M", "P1Y2M3D", "P1Y2M3DT4H5M6S", "P1Y2M3DT4H5M6.7S", "P1YT1S", "P1MT1M", "P0D", "PT0S", "P0Y", "P0M", "P00Y", "P01D", "PT36H", "P13M", "PT90M",
+DUR = ["P1Y", "P1M", "P1D", "PT1H", "PT1M", "PT1S", "PT1.5S", "PT0.000001S", "PT1.50S", "PT1.5000000S", "PT0.50000000000S", "PT0.1234560S", "PT59.999999S", "P1DT0.5S", "PT1.000001S", "PT0.1S", "PT0.10S", "PT100S", "PT3600S", "PT1M0.5S", "P1Y0M", "P0Y1M", "P0DT0H0M0.0S", "P1Y2M", "P1Y2M3D", "P1Y2M3DT4H5M6S", "P1Y2M3DT4H5M6.7S", "P1YT1S", "P1MT1M", "P0D", "PT0S", "P0Y", "P0M", "P00Y", "P01D", "PT36H", "P13M", "PT90M",
        "P400D", "PT0.5S", "P", "PT", "P1YT", "PT1Y", "P1M1Y", "P1S", "P1H", "PT1D", "P1.5D", "P1.5Y", "P1.5M", "PT1.5H", "PT1.5M", "PT1.S", "PT.5S", "PT1.5.5S", "P1W", "P1Y1W", "P-1D", "P+1D", "PT-1S", "P1Y-1M",
        "p1d", "P1d", "pt1s", "P 1D", "1D", "D1", "P1DT", "P1DT1H1S", "P1DT1S1H", "P12345678901234567890D", "PT12345678901234567890S", "P1Y2M3DT", "PT1H2M3S4", "P1D2H", "P1D1D", "PT1S1S", "PD", "PTS", "P1", "PT1", "", "+P1D", "--P1D", "P1DZ", "P2020-01-01"]
 HEX = ["", "0a", "0A", "Ff", "0", "0g", "0a0", "0a0b", "xx", "0x0a", "0a 0b", "0a-0b", "ABCDEF0123456789", "０１"]
